@@ -131,6 +131,56 @@ def varconfig_invariant(v):
     return inv
 
 
+def varconfig_loop(v, fn):
+    """attach varconfig_invariant to the element loop of the var_config branch and add its iteration-space contract: when
+    the loop is left, EVERY element of the field (field1.size / sizeof(struct reb_variational_configuration) of them) has
+    been compared -- an element loop with a too small bound never sees a change in the later elements"""
+    from engine.csym import LoopSpec, as_int
+    hits = [o for (o, i) in v.loops_of(fn) if i["kind"] == "ForStmt" and "vb1" in i["names"]]
+    v.ground("var_config_branch_present", len(hits) == 1, str(hits))
+    if len(hits) != 1:
+        from engine.cexec import PathEnd
+        raise PathEnd("var_config element loop not found")
+    spec = LoopSpec(varconfig_invariant(v))
+    tu0 = v.eng.tu0
+    vc_size = tu0.sizeof(tu0.ctype("struct reb_variational_configuration"))
+    o = hits[0]
+
+    def handler(e, st, n, cond, inc, body):
+        fl = e.loop_invariant(st, n, cond, inc, body, False, spec, fn, o)
+        i = as_int(e.local(st, "i"))
+        f1 = e.local(st, "field1")
+        size = as_int(f1.fields["size"] if hasattr(f1, "fields") else e.read(st, Ptr(e.local_ptr(st, "field1").obj, ("size",))))
+        e.oblige(st, "reb_binary_diff.var_config.every_element_of_the_field_compared", i * vc_size + vc_size > size, "loop", n)
+        return fl
+    v.loop(fn, o, invariant=handler, mode="custom")
+    return hits
+
+
+def particle_loop(v, fn, inv):
+    """element loop of the `particles` branch: same iteration-space contract (every particle of the field is handed to
+    reb_particle_diff)"""
+    from engine.csym import LoopSpec, as_int
+    hits = [o for (o, i) in v.loops_of(fn) if i["kind"] == "ForStmt" and "pb1" in i["names"]]
+    v.ground("particles_branch_present", len(hits) == 1, str(hits))
+    if len(hits) != 1:
+        from engine.cexec import PathEnd
+        raise PathEnd("particles element loop not found")
+    spec = LoopSpec(inv)
+    tu0 = v.eng.tu0
+    psize = tu0.sizeof(tu0.ctype("struct reb_particle"))
+    o = hits[0]
+
+    def handler(e, st, n, cond, inc, body):
+        fl = e.loop_invariant(st, n, cond, inc, body, False, spec, fn, o)
+        i = as_int(e.local(st, "i"))
+        size = as_int(e.local(st, "field1").fields["size"])
+        e.oblige(st, "reb_binary_diff.particles.every_particle_of_the_field_compared", i * psize + psize > size, "loop", n)
+        return fl
+    v.loop(fn, o, invariant=handler, mode="custom")
+    return hits
+
+
 def local_names(L):
     names = set()
     for did, oid in L.st.frames[-1].items():
@@ -215,9 +265,8 @@ def diff_task(option):
         v.ground("two_search_loops", len(inner) == 2, str(inner))
         v.loop(fn, inner[0], invariant=search2_inv)
         v.loop(fn, inner[1], invariant=search1_inv)
-        v.loop_where(fn, lambda i: i["kind"] == "ForStmt" and "vb1" not in i["names"], invariant=triv)
-        vcl = v.loop_where(fn, lambda i: i["kind"] == "ForStmt" and "vb1" in i["names"], invariant=varconfig_invariant(v))
-        v.ground("var_config_branch_present", len(vcl) == 1, str(vcl))
+        particle_loop(v, fn, triv)
+        varconfig_loop(v, fn)
         ret = v.call(fn, E["b1"], size1, E["b2"], size2, E["bufpp"], E["sizepp"], z3.IntVal(option))
         v.prove("returns_boolean", z3.Or(ret == 0, ret == 1))
     return _
